@@ -306,6 +306,75 @@ path "auth/token/create" { capabilities = ["update"] }`)
 				}
 				res.Distinct("nontrivial", fmt.Sprintf("C|%s|%v", path, wrote))
 			}
+			// token identity reuse: the cubbyhole belongs to the token that wrote it, not to its id.
+			// For every way of ending the first token's life, a token issued later with the SAME
+			// operator-chosen id must find an empty cubbyhole, and no residue may stay in storage.
+			for ri, how := range []string{"revoke", "revoke-self", "revoke-orphan", "revoke-accessor", "lease-revoke"} {
+				id := fmt.Sprintf("c12-chosen-id-%d", ri)
+				mk := func() (*logical.Response, error) {
+					return s.Req(s.Root, logical.UpdateOperation, "auth/token/create", map[string]interface{}{"id": id, "policies": []string{"cub"}, "ttl": "1h"})
+				}
+				r1, e1 := mk()
+				if !OK(r1, e1) || r1 == nil || r1.Auth == nil {
+					res.Note("custom-id token refused: %s", ErrText(r1, e1))
+					continue
+				}
+				tokA, accA := r1.Auth.ClientToken, r1.Auth.Accessor
+				before := s.Phys.Snapshot()
+				if wr, we := s.Req(tokA, logical.UpdateOperation, "cubbyhole/private", map[string]interface{}{"v": "CUBBY-REUSE-CANARY"}); !OK(wr, we) {
+					t.Fatalf("harness: cubbyhole write: %s", ErrText(wr, we))
+				}
+				var fresh []string
+				for k := range s.Phys.Snapshot() {
+					if _, ok := before[k]; !ok && strings.HasSuffix(k, "/private") {
+						fresh = append(fresh, k)
+					}
+				}
+				var rr *logical.Response
+				var re error
+				switch how {
+				case "revoke":
+					rr, re = s.Req(s.Root, logical.UpdateOperation, "auth/token/revoke", map[string]interface{}{"token": tokA})
+				case "revoke-self":
+					rr, re = s.Req(tokA, logical.UpdateOperation, "auth/token/revoke-self", nil)
+				case "revoke-orphan":
+					rr, re = s.Req(s.Root, logical.UpdateOperation, "auth/token/revoke-orphan", map[string]interface{}{"token": tokA})
+				case "revoke-accessor":
+					rr, re = s.Req(s.Root, logical.UpdateOperation, "auth/token/revoke-accessor", map[string]interface{}{"accessor": accA})
+				case "lease-revoke":
+					rr, re = s.Req(s.Root, logical.UpdateOperation, "sys/leases/revoke-prefix/auth/token/create", nil)
+				}
+				res.Add("evaluations", 1)
+				if !OK(rr, re) {
+					res.Note("revocation %s refused: %s", how, ErrText(rr, re))
+					continue
+				}
+				s.Drain()
+				snap := s.Phys.Snapshot()
+				for _, k := range fresh {
+					if _, ok := snap[k]; ok {
+						res.Violate("c12:cubbyhole:residue-after-revocation", fmt.Sprintf("%s of a token with an operator-chosen id left its cubbyhole entry %q in storage", how, k), map[string]interface{}{"how": how})
+					}
+				}
+				r2, e2 := mk()
+				if OK(r2, e2) && r2 != nil && r2.Auth != nil {
+					for _, op := range []logical.Operation{logical.ReadOperation, logical.ListOperation} {
+						pth := "cubbyhole/private"
+						if op == logical.ListOperation {
+							pth = "cubbyhole/"
+						}
+						gr, ge := s.Req(r2.Auth.ClientToken, op, pth, nil)
+						if OK(gr, ge) && gr != nil && (strings.Contains(respText(gr), "CUBBY-REUSE-CANARY") || (op == logical.ListOperation && gr.Data != nil && gr.Data["keys"] != nil && fmt.Sprint(gr.Data["keys"]) != "[]")) {
+							res.Violate("c12:cubbyhole:inherited-by-reissued-token-id", fmt.Sprintf("after %s, a new token issued with the same id sees the first token's cubbyhole on %s %s: %s", how, op, pth, respText(gr)), map[string]interface{}{"how": how})
+						}
+					}
+					_, _ = s.Req(s.Root, logical.UpdateOperation, "auth/token/revoke", map[string]interface{}{"token": r2.Auth.ClientToken})
+					s.Drain()
+				} else {
+					res.Note("re-creating the token id after %s refused: %s", how, ErrText(r2, e2))
+				}
+				res.Distinct("nontrivial", "C|id-reuse|"+how)
+			}
 		}
 		// ---- N: namespace scope of tokens and policies
 		if ti == 1 {
